@@ -13,12 +13,13 @@ COMMON = [
     (r"static_cast<int>\(std::find\(segment_sequence\.begin\(\), segment_sequence\.end\(\), ([^)]*)\)\s*- segment_sequence\.begin\(\)\)",
      r"K_find_int(self->segment_sequence, self->nseq, \1, GQ_SEG)", 1),
     (r"static_cast<int>\(std::find\(timing_poss_sequence\.begin\(\), timing_poss_sequence\.end\(\), ([^)]*)\)\s*- timing_poss_sequence\.begin\(\)\)",
-     r"K_find_int(self->timing_poss_sequence, self->ntseq, \1, GQ_TOF)", (1, 2)),
+     r"K_find_int(self->timing_poss_sequence, self->ntseq, \1, GQ_TOF)", (0, 2)),
+    (r"(?<![\w>.])timing_poss_sequence\[([^\]]+)\]", r"K_vec_at(self->timing_poss_sequence, self->ntseq, \1)", (0, 2)),
     (r"(?<![\w>.])segment_sequence\[(\w+)\]", r"K_vec_at(self->segment_sequence, self->nseq, \1)", 1),
     (r"get_(min|max)_segment_num\(\)", r"self->\1_seg", 2),
     (r"get_(min|max)_axial_pos_num\(([^()]*)\)", r"K_seg_at(self->\1_ax, self, \2)", (3, 6)),
     (r"get_num_axial_poss\(([^()]*(?:\([^()]*\))?[^()]*)\)", r"K_num_ax(self, \1)", (1, 3)),
-    (r"get_(min|max)_tof_pos_num\(\)", r"self->\1_tof", 2),
+    (r"get_(min|max)_tof_pos_num\(\)", r"self->\1_tof", (2, 6)),
     (r"get_min_view_num\(\)", "self->min_view", (1, 3)), (r"get_max_view_num\(\)", "self->max_view", (0, 3)),
     (r"get_min_tangential_pos_num\(\)", "self->min_tang", (1, 3)), (r"get_max_tangential_pos_num\(\)", "self->max_tang", (0, 3)),
     (r"get_num_tangential_poss\(\)", "NT(self)", (3, 8)), (r"get_num_views\(\)", "NV(self)", (2, 4)),
@@ -449,8 +450,10 @@ def replay(job, o, workroot, repo):
             return {"status": "unavailable", "detail": "replay driver did not build: " + info}
     os.environ.setdefault("STIR_CONFIG_DIR", os.path.join(repo, "src/config"))
     modes = [["header", workroot]] if "fss" in job.name else [["visible", workroot], ["scale", workroot]] if "K_pds_set" in job.name else []
+    if "K_pds_" in job.name:
+        modes = [["tofstream"]] + modes if ("get_offset" in job.name or "activate_TOF" in job.name) else modes + [["tofstream"]]
     for mode in modes + [["asym"], ["range"], ["paths"]] + ([] if "fss" in job.name else [["header", workroot]]) + ([] if "K_pds_set" in job.name else [["visible", workroot], ["scale", workroot]]):
         st, detail = native.run(exe, mode, timeout=900)
         if st == "confirmed":
             return {"status": "confirmed", "detail": detail, "command": "c02_replay " + " ".join(mode), "from_verifier_counterexample": False}
-    return {"status": "not-reproduced", "detail": "c02_replay range; c02_replay paths (in-memory, stream with permuted segment sequence, both storage orders); c02_replay header; c02_replay visible (file-backed, second reader after every write call); c02_replay scale (shorts with scale factor 0.5); c02_replay asym (asymmetric segment ranges)"}
+    return {"status": "not-reproduced", "detail": "c02_replay range; c02_replay paths (in-memory, stream with permuted segment sequence, both storage orders); c02_replay header; c02_replay visible (file-backed, second reader after every write call); c02_replay scale (shorts with scale factor 0.5); c02_replay asym (asymmetric segment ranges); c02_replay tofstream (TOF blocks in four orders, both storage orders) for stream kernels"}
